@@ -82,6 +82,14 @@ CHECKS = {
               "and K/M receive: every field of the LinkLayerCreate and every result handle proved equal to its source. One open known finding (type R not convertible)."),
         technique="contract-based deductive verification: end-to-end symbolic execution of the real SDK/assembler/executor code with field-by-field postconditions, z3 LIA",
         design_ref="5.C11"),
+    "C14": dict(
+        category="proof",
+        text=("Resource-balance contract (the active-register set after a completed operation equals the one before) and no-clobber contract (emitted commands "
+              "write only the operation's own temporaries, which lie outside the enclosing live set, and no temporary is written while another live temporary "
+              "holds the same register: liveness over the emitted control-flow graph) for every SDK operation kind, from an ARBITRARY symbolic active set; "
+              "allocator contract by loop contract. Sequences of any length follow by induction (stated); long random sequences as bounded stand-in."),
+        technique="contract-based deductive verification: balance/no-clobber contracts per completed SDK operation over a symbolic active-register set, allocator loop contract, z3 (arrays + LIA)",
+        design_ref="5.C14"),
     "C19": dict(
         category="proof",
         text=("Loop-invariant proof of get_angle_spec_from_float over the reals for every angle and every tolerance in [1e-9, 1]: the real loop "
